@@ -163,6 +163,9 @@ CHECKS = {
             {"name": "transfer", "pkg": T, "run": "^TestVerifC17",
              "quick": {"checks": 3000, "shards": 4, "timeout": 900},
              "thorough": {"checks": 40000, "shards": 16, "timeout": 3400}},
+            {"name": "xfer", "pkg": X, "run": "^TestVerifC17",
+             "quick": {"checks": 500, "shards": 8, "timeout": 900},
+             "thorough": {"checks": 4000, "shards": 16, "timeout": 3400}},
         ],
     },
     "C06": {
@@ -473,3 +476,44 @@ CHECKS = {
         ],
     },
 }
+
+# Units and generator classes added after the first version of the texts above.
+_ADDENDA = {
+    "C01": ("Unit 'prior' starts from the output state of an earlier interrupted attempt, possibly made with another chunk size (also one "
+            "that keeps a file's chunk count) and with holes below the highest received chunk. Unit 'quic' runs about a tenth of the "
+            "generated cases over real quic-go connections on the loopback interface (production TLS/QUIC configuration, transferquic "
+            "connections, 1-4 connections through NewMultiConn)."),
+    "C03": ("Resumed cases include 'late report' ones: the highest recorded chunk is damaged and the receiver's control records spend "
+            "450-600 ms in flight (non-blocking per-piece latency of the in-memory transport), so that the resume report arrives after "
+            "the sender's grace period and after FileEnd. Unit 'quic' runs about a tenth of the random cases over real loopback QUIC."),
+    "C05": ("A quarter of the generated histories are 're-geometry' ones: an attempt that left marks, then an attempt with another chunk "
+            "size under which some file keeps its chunk count."),
+    "C06": ("Unit 'interrupted' combines tampering with crashes: a killed attempt that left marks, deletion or shortening of the partial "
+            "data file, a second attempt killed by SIGKILL around the point where the receiver re-creates the file and decides about "
+            "the old metadata, then the final attempt (same oracle)."),
+    "C07": ("Escapes are also padded with neutral segments past the 1024-byte and 64 KiB length limits. Unit 'app-root' (package app): "
+            "hostile root names of a manifest offer against hasResumeData/clearResumeData in a sandbox with metadata directories "
+            "planted at every level (same snapshot oracle)."),
+    "C11": ("Unit 'blocked-writer': 24 enumerated ways of leaving while the connection's writer is blocked in its send function (slow "
+            "path of remove). Unit 'stress': real concurrency without the scheduler (join/reconnect/leave/close-session against "
+            "send/broadcast/list for 1.5 s, thorough 20 s); a recovered panic, a hang or left-over state is a violation - it reaches "
+            "interleavings between the instrumented points but proves nothing when it is clean."),
+    "C14": ("The lifetime probe runs with a 1.2 s lifetime, with lifetime 0 (disabled: the code keeps admitting until the host leaves) "
+            "and with 1 h."),
+    "C15": ("Deviations include a chunk frame for an empty file and a hostile receiver that ends only its control stream 25-400 ms after "
+            "its last record while connection and data streams stay open."),
+    "C16": ("With --ws-msgs-per-sec 0 the host sends burst+25 addressed messages and all must reach the receiver."),
+    "C18": ("Paths also take byte lengths of 1025-4096 with multi-byte-only alphabets: an encoder refusal is fine, an emitted record must "
+            "decode."),
+    "C17": ("Unit 'wire' (black box): the real sender and receiver run over the in-memory transport with a tap on every connection; "
+            "the taped bytes are decoded with the harness's own decoder and checked per file: exactly one FileBegin and one FileEnd, "
+            "every chunk the receiver did not report as present in exactly one frame, reported ones in at most one (the verified chunk "
+            "at most two), reference frame lengths, FileEnd's frame count equal to the frames sent, no frame after FileEnd; prior "
+            "states, damaged verified chunks, hook perturbations and late resume reports vary the dispatcher's path."),
+    "C19": ("A third of the resume probes start from metadata (written by the production function) and a full-length data file of an "
+            "attempt with another chunk size: the metadata must end with the new geometry."),
+}
+for _id, _t in _ADDENDA.items():
+    CHECKS[_id]["level_text"] = CHECKS[_id]["level_text"] + " " + _t
+CHECKS["C11"]["technique"] = CHECKS["C11"]["technique"].replace(
+    "+ rapid-generated programs and schedules;", "+ rapid-generated programs and schedules + a real-concurrency stress run;")
